@@ -281,6 +281,8 @@ class Body:
                 for i, s in enumerate(blk.stmts):
                     if is_local(s["lhs"]):
                         d[s["lhs"]["l"]].append((blk.idx, i, s["rv"]))
+                    elif s["lhs"]["p"][0] == "*":
+                        pass  # a store through a reference does not redefine the reference itself
                     else:
                         # partial write: count as an extra def so that the local is not "single-def"
                         d[s["lhs"]["l"]].append((blk.idx, i, {"k": "partial", "lhs": s["lhs"], "rv": s["rv"]}))
@@ -288,6 +290,8 @@ class Body:
                 if t["k"] == "call":
                     if is_local(t["dest"]):
                         d[t["dest"]["l"]].append((blk.idx, "term", {"k": "call", "t": t}))
+                    elif t["dest"]["p"][0] == "*":
+                        pass
                     else:
                         d[t["dest"]["l"]].append((blk.idx, "term", {"k": "partial", "lhs": t["dest"], "rv": {"k": "call", "t": t}}))
             self._defs = d
